@@ -42,29 +42,29 @@ func ZZ_C18_reuse() {
 
 // ---- thorough tier
 
-func ZZ_C18_password_T() {
+func ZZ_C18_password() {
 	tx := storeChoice()
 	runDirect(newEnv("password", tx, nil), true, false)
 }
 
-func ZZ_C18_clientcred_T() {
+func ZZ_C18_clientcred() {
 	tx := storeChoice()
 	runDirect(newEnv("clientcred", tx, nil), false, false)
 }
 
-func ZZ_C18_revoke_T() {
+func ZZ_C18_revoke() {
 	tx := storeChoice()
 	runRevoke(newEnv("revoke", tx, nil), false)
 }
 
-// ZZ_C18_codereplay_T: replay of a redeemed code under one or two faults.
-func ZZ_C18_codereplay_T() {
+// ZZ_C18_codereplay: replay of a redeemed code under one or two faults.
+func ZZ_C18_codereplay() {
 	tx := storeChoice()
 	runCodeReplay(newEnv("codereplay", tx, nil), zz.Choice("pairs", 2) == 1)
 }
 
-// ZZ_C18_pkce_T: PKCE-protected redeem.
-func ZZ_C18_pkce_T() {
+// ZZ_C18_pkce: PKCE-protected redeem.
+func ZZ_C18_pkce() {
 	tx := storeChoice()
 	runCode(newEnv("pkce", tx, nil), codeOpts{scopes: []string{"offline", "photos"}, pkce: true})
 }
